@@ -2,6 +2,6 @@
 # Build the whole Lean library from files on disk (offline) after regenerating the tables from /repo.
 cd "$(dirname "$0")" || exit 2
 export PYTHONDONTWRITEBYTECODE=1 PYTHONPATH="/repo${PYTHONPATH:+:$PYTHONPATH}" DELPH_IN_PYDELPHIN_VERIF=1
-/venv/bin/python -B -m harness.common.tables || exit 2
+/venv/bin/python -B -m harness.common.tables --all || exit 2
 cd lean && lake build 2>&1 | grep -v '^trace' | tail -40
 exit ${PIPESTATUS[0]}
